@@ -9,7 +9,10 @@ pub fn run(kind: &str, i: &Input) -> String {
         "vm_op" => vm_op(i),
         "asm_bytes" => asm_bytes(i),
         "vm_prog" => vm_prog(i),
+        "vm_mapped" => vm_mapped(i),
         "check_graph" => check_graph(i),
+        "check_set" => check_set_kind(i),
+        "check_leaves" => check_leaves(i),
         "types_words" => types_words(i),
         "types_bytes" => types_bytes(i),
         "types_roundtrip" => types_roundtrip(i),
@@ -117,19 +120,22 @@ pub fn op_by_name(name: &str, imm: i64) -> Op {
 fn vm_op(i: &Input) -> String {
     let op = op_by_name(get(i, "op"), get(i, "imm").parse().unwrap_or(0));
     let mut vm = Vm::default();
-    vm.stack = Stack::try_from(words(get(i, "stack"))).unwrap();
-    vm.memory = Memory::try_from(words(get(i, "memory"))).unwrap();
+    vm.stack = Stack::try_from(words(get(i, "stack"))).expect("REPLAY-HARNESS: initial stack");
+    vm.memory = Memory::try_from(words(get(i, "memory"))).expect("REPLAY-HARNESS: initial memory");
     if i.contains_key("parent") {
-        vm.parent_memory = vec![Arc::new(Memory::try_from(words(get(i, "parent"))).unwrap())];
+        vm.parent_memory = vec![Arc::new(Memory::try_from(words(get(i, "parent"))).expect("REPLAY-HARNESS: parent memory"))];
     }
     if let Some(pc) = i.get("pc") {
         vm.pc = pc.parse().unwrap();
     }
     let pc0 = vm.pc;
     // the op sits at index pc0 of a program of pc0+1 ops (ops before it are never executed)
-    let mut ops = vec![Op::from(asm::Stack::Pop); pc0.min(64)];
+    let filler: Op = if get(i, "fill") == "halt" { asm::TotalControlFlow::Halt.into() } else { asm::Stack::Pop.into() };
+    let mut ops = vec![filler; pc0.min(64)];
     if pc0 > 64 { return "skipped=pc too large for a concrete program\n".into(); }
     ops.push(op);
+    let tail: usize = get(i, "tail").parse().unwrap_or(0);
+    for _ in 0..tail { ops.push(filler); }
     let r = vm.exec_ops(&ops, test_access(), &NoState, &|_: &Op| 1, GasLimit::UNLIMITED);
     let mut out = String::new();
     match r {
@@ -356,8 +362,8 @@ fn vm_prog(i: &Input) -> String {
     };
     let limit = GasLimit { per_yield: GasLimit::DEFAULT_PER_YIELD, total: get(i, "limit").parse().unwrap_or(u64::MAX) };
     let mut vm = Vm::default();
-    vm.stack = Stack::try_from(words(get(i, "stack"))).unwrap();
-    vm.memory = Memory::try_from(words(get(i, "memory"))).unwrap();
+    vm.stack = Stack::try_from(words(get(i, "stack"))).expect("REPLAY-HARNESS: initial stack");
+    vm.memory = Memory::try_from(words(get(i, "memory"))).expect("REPLAY-HARNESS: initial memory");
     let r = vm.exec_ops(&ops, test_access(), &NoState, &cost, limit);
     let mut out = String::new();
     match r {
@@ -366,4 +372,114 @@ fn vm_prog(i: &Input) -> String {
     }
     out += &format!("stack={}\nmemory={}\npc={}\nhalt={}\n", fmt_words(&vm.stack), fmt_words(&vm.memory), vm.pc, vm.halt);
     out
+}
+
+/// solutions=contract_tag,pred_tag,slot_len slot_len ..,[k|v];[k|v] // next solution ...
+pub fn parse_solutions(s: &str) -> Vec<Solution> {
+    s.split("//").filter(|x| !x.trim().is_empty()).map(|x| {
+        let parts: Vec<&str> = x.trim().splitn(4, ',').collect();
+        let c: u8 = parts[0].trim().parse().unwrap();
+        let p: u8 = parts[1].trim().parse().unwrap();
+        let data = parts[2].split_whitespace().map(|n| vec![0i64; n.parse().unwrap()]).collect();
+        Solution {
+            predicate_to_solve: PredicateAddress { contract: ContentAddress([c; 32]), predicate: ContentAddress([p; 32]) },
+            predicate_data: data,
+            state_mutations: parse_mutations(parts.get(3).copied().unwrap_or("")),
+        }
+    }).collect()
+}
+
+fn check_set_kind(i: &Input) -> String {
+    use essential_types::solution::SolutionSet;
+    match get(i, "fn") {
+        "predicate" => {
+            let nn: usize = get(i, "nodes").parse().unwrap();
+            let ne: usize = get(i, "edges").parse().unwrap();
+            let np: usize = get(i, "preds").parse().unwrap();
+            let pos: usize = get(i, "pos").parse().unwrap_or(0);
+            let big = Predicate { nodes: vec![Node { edge_start: 0, program_address: ContentAddress([0; 32]) }; nn], edges: vec![0; ne] };
+            let r1 = essential_check::predicate::check(&big).is_ok();
+            let mut preds = vec![Predicate { nodes: vec![], edges: vec![] }; np];
+            if np > 0 { preds[pos] = big; }
+            let r2 = essential_check::predicate::check_contract(&preds);
+            format!("result=ok\ncheck={r1}\ncontract={}\n", match r2 { Ok(()) => "ok".to_string(), Err(e) => format!("{e:?}") })
+        }
+        _ => {
+            let set = SolutionSet { solutions: parse_solutions(get(i, "solutions")) };
+            match essential_check::solution::check_set(&set) {
+                Ok(()) => "result=ok\n".into(),
+                Err(e) => format!("result=err\nerr={}\n", format!("{e:?}").chars().take(200).collect::<String>()),
+            }
+        }
+    }
+}
+
+/// one solution (with declared mutations) whose predicate consists of independent leaf programs
+/// prog0..progN-1; optional pre-state `pre=c:k k|v v;..`; through the two-pass entry point
+fn check_leaves(i: &Input) -> String {
+    use essential_check::solution::{check_and_compute_solution_set_two_pass, CheckPredicateConfig};
+    use essential_types::predicate::Program;
+    use essential_types::solution::SolutionSet;
+    use std::collections::HashMap;
+    let n: usize = get(i, "n").parse().unwrap();
+    let mut programs: HashMap<ContentAddress, Arc<Program>> = HashMap::new();
+    let mut nodes = vec![];
+    for k in 0..n {
+        let prog = Program(essential_asm::to_bytes(parse_ops(get(i, &format!("prog{k}")))).collect());
+        let ca = essential_hash::content_addr(&prog);
+        programs.insert(ca.clone(), Arc::new(prog));
+        nodes.push(Node { edge_start: u16::MAX, program_address: ca });
+    }
+    let mut sols = parse_solutions(get(i, "solutions"));
+    let paddr = sols[0].predicate_to_solve.clone();
+    let pred = Arc::new(Predicate { nodes, edges: vec![] });
+    let empty = Arc::new(Predicate { nodes: vec![], edges: vec![] });
+    let mut preds: HashMap<PredicateAddress, Arc<Predicate>> = HashMap::new();
+    for (k, s) in sols.iter_mut().enumerate() {
+        preds.insert(s.predicate_to_solve.clone(), if k == 0 { pred.clone() } else { empty.clone() });
+    }
+    let _ = paddr;
+    let mut pre = std::collections::BTreeMap::new();
+    for e in get(i, "pre").split(';').filter(|x| !x.trim().is_empty()) {
+        let (c, kv) = e.split_once(':').unwrap();
+        let (k, v) = kv.split_once('|').unwrap();
+        pre.insert((ContentAddress([c.trim().parse().unwrap(); 32]), words(k)), words(v));
+    }
+    let cfg = Arc::new(CheckPredicateConfig { collect_all_failures: false });
+    match check_and_compute_solution_set_two_pass(&MapState(pre), SolutionSet { solutions: sols }, preds, programs, cfg) {
+        Ok((gas, set)) => format!("result=ok\ngas={gas}\nmutations0={}\n",
+            set.solutions[0].state_mutations.iter().map(fmt_mutation).collect::<Vec<_>>().join(";")),
+        Err(e) => format!("result=err\nerr={}\n", format!("{e:?}").replace('\n', " ").chars().take(300).collect::<String>()),
+    }
+}
+
+/// BytecodeMapped vs from_bytes on the same bytes (owned and borrowed)
+fn vm_mapped(i: &Input) -> String {
+    use essential_asm::from_bytes;
+    use essential_vm::{BytecodeMapped, OpAccess};
+    let bs = bytes(get(i, "bytes"));
+    let parsed: Result<Vec<Op>, _> = from_bytes(bs.clone()).collect();
+    let mut out = String::new();
+    let kind = |e: &essential_asm::FromBytesError| match e {
+        essential_asm::FromBytesError::InvalidOpcode(_) => "InvalidOpcode",
+        essential_asm::FromBytesError::NotEnoughBytes(_) => "NotEnoughBytes",
+    };
+    out += &format!("parsed={}\n", match &parsed { Ok(ops) => format!("ok:{ops:?}"), Err(e) => format!("err:{}", kind(e)) });
+    let owned = BytecodeMapped::try_from(bs.clone());
+    let borrowed = BytecodeMapped::try_from(&bs[..]);
+    out += &format!("owned={}\n", match &owned { Ok(m) => format!("ok:{:?}", m.ops().collect::<Vec<_>>()), Err(e) => format!("err:{}", kind(e)) });
+    out += &format!("borrowed={}\n", match &borrowed { Ok(m) => format!("ok:{:?}", m.ops().collect::<Vec<_>>()), Err(e) => format!("err:{}", kind(e)) });
+    if let (Ok(m), Ok(ops)) = (&owned, &parsed) {
+        out += &format!("indices={:?}\n", m.op_indices());
+        let mut agree = true;
+        for k in (0..ops.len() + 12).chain([usize::MAX]) {
+            if m.op(k) != ops.get(k).copied() { agree = false; }
+            let a = (&m).op_access(k).map(|r| r.unwrap());
+            if a != ops.get(k).copied() { agree = false; }
+        }
+        out += &format!("random_access_agrees={agree}\n");
+        let rebuilt: BytecodeMapped = ops.iter().copied().collect();
+        out += &format!("rebuilt_equal={}\n", rebuilt.bytecode() == &bs[..] && rebuilt.op_indices() == m.op_indices());
+    }
+    out + "result=ok\n"
 }
